@@ -36,10 +36,11 @@ type cfgDef struct {
 	restarts     []int            // routers that may stop and restart
 	burstAt      int              // router that may publish a burst of operations on /p3 (-1: none)
 	bursts       []int
-	failFetch    bool // fetch-timeout deviation
-	exchange     bool // X(i<j) events in the alphabet
-	dq, dt       int  // depth quick / thorough
-	dev          int  // deviation bound (faults, restarts, bursts, fetch failures)
+	failFetch    bool  // fetch-timeout deviation
+	failMgmt     []int // routers whose forwarder may reject one management command (deviation Fm)
+	exchange     bool  // X(i<j) events in the alphabet
+	dq, dt       int   // depth quick / thorough
+	dev          int   // deviation bound (faults, restarts, bursts, fetch failures)
 }
 
 var defs = map[string]cfgDef{
@@ -60,6 +61,10 @@ var defs = map[string]cfgDef{
 	// second-best cost over r2 and r3 (tie on the second-best hop); links 1-2 / 1-3 may fail
 	"mirror-diamond": {graph: "n4:01-02-03-12-13", prefixes: map[int][]string{1: {"/p1"}}, announced: true,
 		faults: [][2]int{{1, 2}, {1, 3}}, burstAt: -1, exchange: true, dq: 4, dt: 6, dev: 2},
+	// installer under a failing forwarder: publisher r0 (/p1 announced), observer r1; the forwarder
+	// of r1 rejects one rib command (deviation Fm(1,k): the (k+1)-th next one); retries that the
+	// management thread defers run when time passes (Tk)
+	"mirror-retry": {graph: "n2:01", prefixes: map[int][]string{0: {"/p1"}}, announced: true, failMgmt: []int{1}, burstAt: -1, dq: 8, dt: 10, dev: 2},
 	// log: publisher r1, peer r0; bursts across the snapshot threshold; failing fetches; publisher restart
 	"log-pair": {graph: "n2:01", routerPrefix: "/ndn/site/dept", prefixes: map[int][]string{1: {"/p1", "/p2"}}, burstAt: 1, bursts: []int{98, 99, 100, 101},
 		restarts: []int{1}, failFetch: true, dq: 7, dt: 9, dev: 2},
@@ -216,6 +221,20 @@ func (y *sys) ops(s *dvsim.Sim) []explore.Op {
 			}
 		}
 	}
+	maxFails := 1
+	if os.Getenv("VERIF_TIER") == "thorough" {
+		maxFails = 2
+	}
+	for _, r := range y.d.failMgmt {
+		if s.Nodes[r].Up && !s.MgmtFailureArmed(r) && s.MgmtFailures() < maxFails {
+			for k := 0; k < 3; k++ {
+				add(true, "Fm(%d,%d)", r, k)
+			}
+		}
+	}
+	if s.TimersPending() {
+		add(false, "Tk")
+	}
 	if y.d.burstAt >= 0 && s.Nodes[y.d.burstAt].Up {
 		for _, k := range y.d.bursts {
 			add(true, "Bu(%d,%d)", y.d.burstAt, k)
@@ -239,6 +258,11 @@ func applyOp(s *dvsim.Sim, nm string) {
 		for x := 0; x < k; x++ {
 			s.Readvertise(a, "/p3", x%2 == 0)
 		}
+	case strings.HasPrefix(nm, "Fm("):
+		fmt.Sscanf(nm, "Fm(%d,%d)", &a, &k)
+		s.ArmMgmtFailure(a, k)
+	case nm == "Tk":
+		s.AdvanceClock(200 * time.Millisecond) // deferred retries of management commands fire
 	case strings.HasPrefix(nm, "Sy("):
 		fmt.Sscanf(nm, "Sy(%d)", &a)
 		s.PfxSync(a)
@@ -250,7 +274,9 @@ func applyOp(s *dvsim.Sim, nm string) {
 		s.PfxFetchStep(a, b, true)
 	case strings.HasPrefix(nm, "X("):
 		fmt.Sscanf(nm, "X(%d<%d)", &a, &b)
-		s.Exchange(a, b)
+		if s.LinkLive(a, b) {
+			s.Exchange(a, b)
+		}
 	case strings.HasPrefix(nm, "Fa("):
 		fmt.Sscanf(nm, "Fa(%d<%d)", &a, &b)
 		s.Alt[[2]int{a, b}] = true
@@ -287,10 +313,14 @@ func applyOp(s *dvsim.Sim, nm string) {
 		s.LinkUp(a, b)
 	case strings.HasPrefix(nm, "RD("):
 		fmt.Sscanf(nm, "RD(%d)", &a)
-		s.RouterDown(a)
+		if s.Nodes[a].Up {
+			s.RouterDown(a)
+		}
 	case strings.HasPrefix(nm, "RU("):
 		fmt.Sscanf(nm, "RU(%d)", &a)
-		s.RouterUp(a)
+		if !s.Nodes[a].Up {
+			s.RouterUp(a)
+		}
 	default:
 		panic("unknown op " + nm)
 	}
@@ -332,7 +362,9 @@ func (y *sys) Apply(i any, op explore.Op) []report.Violation {
 	y.m.Nondet = nil
 	seen := map[string]bool{}
 	sn := s.Snap()
-	v = append(v, toViolations(sn.CheckMirror(), seen)...)
+	if !s.TimersPending() { // the mirror clause speaks about the routes held once retries have run
+		v = append(v, toViolations(sn.CheckMirror(), seen)...)
+	}
 	v = append(v, toViolations(sn.CheckLog(), seen)...)
 	l.Canon = sn.CanonRouting() + sn.CanonPrefix()
 	return v
@@ -344,6 +376,7 @@ func (y *sys) CheckState(i any) []report.Violation {
 	s := l.Sim()
 	seen := map[string]bool{}
 	v := toViolations(s.CheckProgress(400), seen)
+	s.RunTimers() // deferred retries of management commands
 	v = append(v, toViolations(s.Snap().CheckMirror(), seen)...)
 	l.Invalidate()
 	return v
@@ -360,6 +393,20 @@ func build(cfg string) explore.System {
 	}
 	y := &sys{name: cfg, d: d, g: g, opsCache: map[string][]explore.Op{}}
 	y.m = dvsim.NewMachineOpt(g, y.initSim, applyOp, dvsim.Options{RouterPrefix: d.routerPrefix}, "C19|"+cfg)
+	y.m.Probe(func(s *dvsim.Sim) []string {
+		var def, dev []string
+		for _, o := range y.ops(s) {
+			if strings.HasPrefix(o.Name, "Bu(") {
+				continue
+			}
+			if o.Dev {
+				dev = append(dev, o.Name)
+			} else {
+				def = append(def, o.Name)
+			}
+		}
+		return append(def, dev...)
+	}, 6)
 	return y
 }
 
@@ -368,7 +415,7 @@ func main() {
 	if _, w := explore.IsWorker(); !w {
 		dvsim.ResetFallbackDir("C19")
 	}
-	order := []string{"mirror-star3", "mirror-diamond", "mirror-line3", "mirror-tri", "mirror-square", "log-pair", "log-join"}
+	order := []string{"mirror-star3", "mirror-diamond", "mirror-retry", "mirror-line3", "mirror-tri", "mirror-square", "log-pair", "log-join"}
 	explore.Main(explore.Spec{
 		ID: "C19", PanicClause: "C19.panic", Build: build,
 		Configs: func(th bool) []explore.Config {
@@ -395,7 +442,7 @@ func main() {
 			}
 			return 100 * time.Second
 		},
-		Rule: "BFS over histories of prefix announce/withdraw/burst, prefix sync, prefix fetch (success/timeout), advertisement exchange, neighbour face change (active/passive), link failure/repair + dead-neighbour check and router restart on real dv.Router objects, from the converged state of 7 small topologies; after every transition: drained nfdc command stream replayed into a (name,face) route table vs from-scratch computation from the current tables; peers' reconstructed prefix sets vs publisher's set at the peer's log position; closure of sync+fetch steps must reach the end of the log",
+		Rule: "BFS over histories of prefix announce/withdraw/burst, prefix sync, prefix fetch (success/timeout), advertisement exchange, neighbour face change (active/passive), link failure/repair + dead-neighbour check and router restart on real dv.Router objects, from the converged state of 8 small configurations; after every transition: drained nfdc command stream replayed into a (name,face) route table vs from-scratch computation from the current tables; peers' reconstructed prefix sets vs publisher's set at the peer's log position; closure of sync+fetch steps must reach the end of the log",
 		Extra: func(rep *report.Reporter, cov report.Coverage) {
 			cov["configs_computed_by_plain_reexecution_after_restore_mismatch"] = dvsim.FallbackConfigs("C19")
 		},
